@@ -20,13 +20,16 @@
      exception leaves every pre-existing cell unchanged (everything before the
      first write to an old cell only allocates; the collection write is the last
      step of its phase that can fail; the final mutate_attr cannot fail).
+   * the top-level update(a=v, _inplace=True) and transform(a=f, _inplace=True)
+     with exactly one keyword, under the same condition.
    Not proved (correspondence and the C04 oracle only): in-place operations on
    attributes that have dependants (invalidation follows the write), and the
-   top-level update/transform/reset(_inplace=True), for which the statement is
-   false (see the refutation below and KNOWN_FINDINGS.json). *)
+   top-level update/transform with two or more keywords and reset(_inplace=True),
+   for which the statement is false (see the refutation below and
+   KNOWN_FINDINGS.json). *)
 From Coq Require Import List ZArith Bool Arith.
 From SC Require Import Base.Res Inst.Heap Inst.ClassTable Inst.Model Inst.Framed Inst.FrameProofs
-  Inst.FrozenProofs Inst.AtomicProofs Inst.AtomicElem Props.C01 Props.C07.
+  Inst.FrozenProofs Inst.AtomicProofs Inst.AtomicElem Inst.AtomicTop Props.C01 Props.C07.
 Import ListNotations.
 Open Scope nat_scope.
 
@@ -104,6 +107,30 @@ Theorem C04_atomic_partial_inplace_attribute_and_element_helpers :
     frame (length (heap s)) s (snd (step ct roots (OpHelper x hp h) s)).
 Proof. intros ct Hct. intros. eapply inplace_attr_helper_op_err_frame; eauto. Qed.
 
+(* top-level update / transform with _inplace=True and exactly ONE keyword
+   (with two or more the statement is false: see the refutation below) *)
+Theorem C04_atomic_partial_inplace_update_single_keyword :
+  forall ct, no_dnc_classes ct ->
+  forall roots x a v h s l c d k e,
+    nth x roots VNone = VRef l -> l < length (heap s) ->
+    nth_error (heap s) l = Some (OInst c d) -> lookup_cls ct c = Some k ->
+    no_dependants k a ->
+    h_inplace h = true -> h_pos h = [] -> h_kw h = Some [(a, v)] ->
+    fst (step ct roots (OpHelper x HUpdateTop h) s) = Err e ->
+    frame (length (heap s)) s (snd (step ct roots (OpHelper x HUpdateTop h) s)).
+Proof. intros ct Hct. intros. eapply inplace_update_top_single_op_err_frame; eauto. Qed.
+
+Theorem C04_atomic_partial_inplace_transform_single_keyword :
+  forall ct, no_dnc_classes ct ->
+  forall roots x a f h s l c d k e,
+    nth x roots VNone = VRef l -> l < length (heap s) ->
+    nth_error (heap s) l = Some (OInst c d) -> lookup_cls ct c = Some k ->
+    no_dependants k a ->
+    h_inplace h = true -> h_fn h = None -> h_kwfn h = [(a, f)] ->
+    fst (step ct roots (OpHelper x HTransformTop h) s) = Err e ->
+    frame (length (heap s)) s (snd (step ct roots (OpHelper x HTransformTop h) s)).
+Proof. intros ct Hct. intros. eapply inplace_transform_top_single_op_err_frame; eauto. Qed.
+
 (* the known finding, as a theorem about the faithful model *)
 Definition kf_ct : ctable :=
   [mkcls 1 [mkattr 2 TStr VMissing None 1 true false None None [];
@@ -149,6 +176,8 @@ Print Assumptions C04_constructor_result_is_fresh.
 Print Assumptions C04_atomic_partial_assignment.
 Print Assumptions C04_atomic_partial_inplace_with.
 Print Assumptions C04_atomic_partial_inplace_attribute_and_element_helpers.
+Print Assumptions C04_atomic_partial_inplace_update_single_keyword.
+Print Assumptions C04_atomic_partial_inplace_transform_single_keyword.
 Print Assumptions C04_inplace_element_nonvacuous.
 Print Assumptions C04_multi_keyword_inplace_update_refuted.
 Print Assumptions C04_nonvacuous.
